@@ -1113,12 +1113,9 @@ func zipInnerSubscription[T any](subscriberCtx context.Context, obs Observable[T
 					onUpdate(ctx)
 				},
 				func(ctx context.Context, err error) {
-					mu.Lock()
-
-					*completed = true
-
-					mu.Unlock()
-
+					// Not marked as completed: another source that has just zipped a tuple would otherwise
+					// take this source for a finished, drained one and complete the destination before the
+					// error reaches it.
 					destination.ErrorWithContext(ctx, err)
 					subscriptions.Unsubscribe()
 				},
@@ -1126,15 +1123,16 @@ func zipInnerSubscription[T any](subscriberCtx context.Context, obs Observable[T
 					mu.Lock()
 
 					*completed = true
+					drained := len(*values) == 0
 
-					if len(*values) == 0 {
-						mu.Unlock()
+					mu.Unlock()
+
+					// Values of this source may still be queued: the destination completes (and the
+					// other sources are unsubscribed) only once they have been zipped, see onUpdate.
+					if drained {
 						destination.CompleteWithContext(ctx)
-					} else {
-						mu.Unlock()
+						subscriptions.Unsubscribe()
 					}
-
-					subscriptions.Unsubscribe()
 				},
 			),
 		),
@@ -1182,10 +1180,16 @@ func ZipWith1[A, B any](obsB Observable[B]) func(Observable[A]) Observable[lo.Tu
 
 					mu.Lock()
 
-					if (completedA && len(valueA) == 0) ||
-						(completedB && len(valueB) == 0) {
+					done := (completedA && len(valueA) == 0) ||
+						(completedB && len(valueB) == 0)
+
+					mu.Unlock() // unlock before completing: the teardown takes the mutex
+
+					if done {
 						destination.CompleteWithContext(ctx) // @TODO: Send the last context ?
 					}
+
+					return
 				}
 
 				mu.Unlock()
@@ -1248,11 +1252,17 @@ func ZipWith2[A, B, C any](obsB Observable[B], obsC Observable[C]) func(Observab
 
 					mu.Lock()
 
-					if (completedA && len(valueA) == 0) ||
+					done := (completedA && len(valueA) == 0) ||
 						(completedB && len(valueB) == 0) ||
-						(completedC && len(valueC) == 0) {
+						(completedC && len(valueC) == 0)
+
+					mu.Unlock() // unlock before completing: the teardown takes the mutex
+
+					if done {
 						destination.CompleteWithContext(ctx) // @TODO: Send the last context ?
 					}
+
+					return
 				}
 
 				mu.Unlock()
@@ -1321,12 +1331,18 @@ func ZipWith3[A, B, C, D any](obsB Observable[B], obsC Observable[C], obsD Obser
 
 					mu.Lock()
 
-					if (completedA && len(valueA) == 0) ||
+					done := (completedA && len(valueA) == 0) ||
 						(completedB && len(valueB) == 0) ||
 						(completedC && len(valueC) == 0) ||
-						(completedD && len(valueD) == 0) {
+						(completedD && len(valueD) == 0)
+
+					mu.Unlock() // unlock before completing: the teardown takes the mutex
+
+					if done {
 						destination.CompleteWithContext(ctx) // @TODO: Send the last context ?
 					}
+
+					return
 				}
 
 				mu.Unlock()
@@ -1402,13 +1418,19 @@ func ZipWith4[A, B, C, D, E any](obsB Observable[B], obsC Observable[C], obsD Ob
 
 					mu.Lock()
 
-					if (completedA && len(valueA) == 0) ||
+					done := (completedA && len(valueA) == 0) ||
 						(completedB && len(valueB) == 0) ||
 						(completedC && len(valueC) == 0) ||
 						(completedD && len(valueD) == 0) ||
-						(completedE && len(valueE) == 0) {
+						(completedE && len(valueE) == 0)
+
+					mu.Unlock() // unlock before completing: the teardown takes the mutex
+
+					if done {
 						destination.CompleteWithContext(ctx) // @TODO: Send the last context ?
 					}
+
+					return
 				}
 
 				mu.Unlock()
@@ -1492,14 +1514,20 @@ func ZipWith5[A, B, C, D, E, F any](obsB Observable[B], obsC Observable[C], obsD
 
 					mu.Lock()
 
-					if (completedA && len(valueA) == 0) ||
+					done := (completedA && len(valueA) == 0) ||
 						(completedB && len(valueB) == 0) ||
 						(completedC && len(valueC) == 0) ||
 						(completedD && len(valueD) == 0) ||
 						(completedE && len(valueE) == 0) ||
-						(completedF && len(valueF) == 0) {
+						(completedF && len(valueF) == 0)
+
+					mu.Unlock() // unlock before completing: the teardown takes the mutex
+
+					if done {
 						destination.CompleteWithContext(ctx) // @TODO: Send the last context ?
 					}
+
+					return
 				}
 
 				mu.Unlock()
@@ -1569,12 +1597,22 @@ func zipAllInnerSubscriptions[T any](outerCtx context.Context, sources []Observa
 
 			mu.Lock()
 
+			done := false
+
 			for i := range sources {
 				if completed[i] && len(values[i]) == 0 {
-					destination.CompleteWithContext(ctx) // @TODO: Send the last context ?
+					done = true
 					break
 				}
 			}
+
+			mu.Unlock() // unlock before completing: the teardown takes the mutex
+
+			if done {
+				destination.CompleteWithContext(ctx) // @TODO: Send the last context ?
+			}
+
+			return
 		}
 
 		mu.Unlock()
